@@ -32,6 +32,12 @@ CHECKS = {
          "TLA+ recipient function + TLC trace validation"),
  "C14": ("model_checking", "Custom* sub-actions: recipient set, limit 10240, stamping; Ok_C14 per recipient; bodies are seeded bytes identified by SHA-256.", "5 C14",
          "TLA+ recipient logic + TLC trace validation; sampled bodies"),
+ "C08": ("model_checking", "ConnLife.tla: handler.Handle with its three goroutines, the disconnect channel, the scheduler queue, context and wait group; TLC checks DisconnectAtMostOnce, ReturnedMeansDisconnected, NeverStuck and the liveness property HandleReturns for all placements of client frames/closes (and refutes the two unrepaired designs). Wire level (L2): fault class x life point scenarios on the real server over sockets with same-session and other-session witnesses, gauges and goroutine profile; every handler's observed event stream is validated by TLC against ConnLife (ConnTrace, silent steps).", "5 C08",
+         "TLA+ connection-grain model + TLC safety/liveness + wire-level trace validation"),
+ "C17": ("model_checking", "FlagsMC: class table of the ten flags over all 2048 subsets (incl. unknown name). Paired runs of the real code: the same history under flag set F and under no flag, merged step by step; Ok_C17 requires equal logged state/result and out_F = FilterSeq(F, out_0) per recipient.", "5 C17",
+         "TLA+ class table + paired-run trace validation"),
+ "C18": ("model_checking", "Latency.tla exhaustively (all answer orders with unknown/answered/replayed ids and restarts); all short and seeded long scripts on the real code under a virtual clock; LatencyTrace checks protocol steps, refusals, the decoded report, signer recovery flag and integer statistics.", "5 C18",
+         "TLA+ protocol model + virtual clock + trace validation"),
  "C16": ("model_checking", "Action/AssetAdd sub-actions; Ok_C16 compares logged vikja/odal state, responses, relays and join snapshots with the spec; timestamps never go back.", "5 C16",
          "TLA+ module model + TLC trace validation"),
 }
